@@ -51,6 +51,8 @@ def families(tier, rng):
 
 def tier2(tier, rng):
     th = tier == "thorough"
-    for (h, w, holes) in [(1, 1, 0), (1, 5, 0), (2, 3, 1), (2, 2, 0)]:
+    if th:
+        yield _rand(rng, 2, 3, 1, 0.4)
+    for (h, w, holes) in [(1, 1, 0), (1, 5, 0), (5, 1, 0), (2, 2, 0)]:
         for _ in range(8 if th else 2):
             yield _rand(rng, h, w, holes, 0.4)
